@@ -96,7 +96,11 @@ def _s_nest(v, full, tags):
     fs.add_dir('sub')
     if ck_ == 1:
         fs.add_file('sub/c', size=c_size, digest=c_dig)
-    fs.add_file('a', size=2, digest='A')
+    a_stale = v.lazychoice('a_stale', 2)
+    # with a stale link to an otherwise exact sub-Manifest, the file next to the top-level
+    # Manifest may have changed too (then the parent is already marked as modified when the
+    # walk reaches the sub-Manifest)
+    fs.add_file('a', size=2, digest='V' if (st == 'stale-link' and a_stale() == 1) else 'A')
     # a sibling whose name has "sub" as a string (not component) prefix, with a file that
     # has no entry yet and one that is listed in the top Manifest
     fs.add_file('subx/new', size=1, digest='n')
@@ -323,10 +327,16 @@ def conditions(tier):
              ('ep_present', (False, True)), ('ec_present', (False, True))]
     if full:
         parts += [('hs', range(2))]
+    nfx = []
     for fx in partitions(parts):
+        # the stale top-level file only exists in the stale-link state (sub_state 1)
+        for a_stale in ((0, 1) if fx['sub_state'] == 1 else (0,)):
+            nfx.append(dict(fx, a_stale=a_stale))
+    for fx in nfx:
         if fx['sub_state'] in (3, 4) and fx['ec_present']:
             continue        # no usable sub-Manifest: the child slot does not exist
-        nm = 'nest_' + '_'.join(f'{k.replace("_", "")[:4]}{int(x)}' for k, x in fx.items())
+        nm = 'nest_' + '_'.join(f'{k.replace("_", "")[:4]}{int(x)}' for k, x in fx.items()
+                                if k != 'a_stale') + ('_astale' if fx['a_stale'] else '')
         cs.append(make_cond(
             nm, make_nest(full, ntags), run_upd, judge_upd, fx, timeout=1500 if full else 400,
             group='M-nest',
@@ -336,7 +346,8 @@ def conditions(tier):
             bounds='S-nest: sub-Manifest registered / stale link (symbolic) / unregistered '
                    'valid / unregistered invalid / absent; sub/c absent or symbolic, listed '
                    f'in child (tags {ntags}) and/or parent (hash sets {{MD5}}|{{MD5,SHA1}}); '
-                   'update of "" or "sub"; '
+                   'update of "" or "sub"; with a stale link the file next to the top-level '
+                   'Manifest may be stale as well; '
                    + ('requested hashes, sort, force symbolic and independent' if full
                       else 'requested hashes {MD5,SHA1}, sort=force=False')))
     return cs
